@@ -5,6 +5,7 @@ import (
 	stdsha "crypto/sha256"
 	"encoding/hex"
 	"fmt"
+	"github.com/storacha/go-ucanto/core/dag/blockstore"
 	"io"
 	"math/rand"
 	"strings"
@@ -62,6 +63,45 @@ func decodeCanon(input []byte) (hdrErr bool, rootsStr string, blocksStr string, 
 			oracle = fmt.Sprintf("fail:delivered block %s whose bytes do not hash to its CID", c)
 		}
 	}
+	// what the library's consumers build from the iterator: a block reader in which every delivered
+	// block is found under its own link, with its own bytes
+	if !iterErr && oracle == "" {
+		if _, again, err := car.Decode(bytes.NewReader(input)); err == nil {
+			if br, err := blockstore.NewBlockReader(blockstore.WithBlocksIterator(again)); err == nil {
+				want := map[string]string{}
+				for _, e := range bs {
+					p := strings.SplitN(e, ":", 2)
+					if _, seen := want[p[0]]; !seen {
+						want[p[0]] = p[1]
+					}
+				}
+				n := 0
+				for b, err := range br.Iterator() {
+					if err != nil {
+						break
+					}
+					n++
+					k := hex.EncodeToString([]byte(b.Link().Binary()))
+					if w, ok := want[k]; !ok || w != hex.EncodeToString(b.Bytes()) {
+						oracle = "fail:the block reader built from the archive iterates a block the archive did not deliver under that link"
+					}
+				}
+				if n != len(want) {
+					oracle = fmt.Sprintf("fail:the block reader built from the archive holds %d blocks, the archive delivered %d distinct links", n, len(want))
+				}
+				_, blocks2, _ := car.Decode(bytes.NewReader(input))
+				for b, err := range blocks2 {
+					if err != nil {
+						break
+					}
+					g, ok, gerr := br.Get(b.Link())
+					if gerr != nil || !ok || g.Link().String() != b.Link().String() || hex.EncodeToString(g.Bytes()) != want[hex.EncodeToString([]byte(b.Link().Binary()))] {
+						oracle = "fail:the block reader built from the archive answers a delivered link with another block"
+					}
+				}
+			}
+		}
+	}
 	end := "eof"
 	if iterErr {
 		end = "err"
@@ -107,6 +147,11 @@ func genArchive(r *rand.Rand, maxBlocks int) (roots [][]byte, blocks []rawBlock)
 	for i := 0; i < nb; i++ {
 		if i > 0 && r.Intn(6) == 0 { // duplicate CID
 			blocks = append(blocks, blocks[r.Intn(i)])
+			continue
+		}
+		if i > 0 && r.Intn(6) == 0 { // the same bytes under another CID (other codec, version or hash length)
+			d := blocks[r.Intn(i)].data
+			blocks = append(blocks, rawBlock{mkCid(r, d), d})
 			continue
 		}
 		data := make([]byte, r.Intn(40))
